@@ -14,10 +14,20 @@ fn map_res(r: Result<Resp, IErr>) -> Out {
     }
 }
 macro_rules! mkfn {
-    ($svc:expr) => {{
-        let svc = $svc;
+    ($svc:expr, $mode:expr) => {{
+        // handle usage: 0 = one handle for every request, 1 = a fresh clone per request, 2 = two alternating clones
+        let mode: u64 = $mode;
+        let mut svc = $svc;
+        let mut alt = svc.clone();
+        let mut n = 0u64;
         Box::new(move |req: &Req| -> CallFut {
-            let mut s = svc.clone();
+            n += 1;
+            let mut fresh = svc.clone();
+            let s = match mode {
+                0 => &mut svc,
+                1 => &mut fresh,
+                _ => if n % 2 == 0 { &mut alt } else { &mut svc },
+            };
             let w = futures::task::noop_waker();
             let mut cx = std::task::Context::from_waker(&w);
             let _ = s.poll_ready(&mut cx);
@@ -26,14 +36,14 @@ macro_rules! mkfn {
         }) as MkFn
     }};
 }
-fn build(cfg: &Value, sim: &Sim, seed: u64) -> MkFn {
+fn build(cfg: &Value, sim: &Sim, seed: u64, mode: u64) -> MkFn {
     let u = |k: &str| cfg[k].as_u64().unwrap();
     let inner = Inner::new(&sim.w);
     let (er, lr) = (u("er") as f64 / 100.0, u("lr") as f64 / 100.0);
     if u("er") == 0 && cfg["noinj"].as_u64().unwrap_or(0) == 1 {
         // latency-only chaos: the default (no) error injector
         let layer = ChaosLayer::builder().latency_rate(lr).min_latency(Duration::from_millis(u("mn"))).max_latency(Duration::from_millis(u("mx"))).seed(seed).build();
-        mkfn!(layer.layer(inner))
+        mkfn!(layer.layer(inner), mode)
     } else {
         let layer = ChaosLayer::builder()
             .error_rate(er)
@@ -43,7 +53,7 @@ fn build(cfg: &Value, sim: &Sim, seed: u64) -> MkFn {
             .max_latency(Duration::from_millis(u("mx")))
             .seed(seed)
             .build();
-        mkfn!(layer.layer(inner))
+        mkfn!(layer.layer(inner), mode)
     }
 }
 struct Obs {
@@ -53,10 +63,10 @@ struct Obs {
     intact: bool,
 }
 /// run requests 1..=n on one instance; `batch` = how many are issued before they are polled (in order)
-async fn instance(cfg: &Value, cseed: u64, n: usize, batch: usize) -> Vec<Obs> {
+async fn instance(cfg: &Value, cseed: u64, n: usize, batch: usize, mode: u64) -> Vec<Obs> {
     let mut sim = Sim::new();
     sim.reset("chaos", cfg, cseed, 0);
-    let mut mk = build(cfg, &sim, cseed);
+    let mut mk = build(cfg, &sim, cseed, mode);
     let mut obs: Vec<Obs> = vec![];
     let mut k = 1;
     while k <= n {
@@ -155,8 +165,9 @@ pub fn run_chaos(seed: u64, size: Size, out: &mut Vec<String>) -> (usize, usize)
         out.push(json!({"e":"reset","comp":"chaos","cfg":cfg,"seed":cseed}).to_string());
         ne += 1;
         let batch = 2 + rng.below(4);
-        let a = rt.block_on(instance(cfg, *cseed, n, 1));
-        let b = rt.block_on(instance(cfg, *cseed, n, batch));
+        // instance A: one handle, each request awaited; instance B: clones of the service, batches
+        let a = rt.block_on(instance(cfg, *cseed, n, 1, 0));
+        let b = rt.block_on(instance(cfg, *cseed, n, batch, 1 + rng.below(2) as u64));
         for (inst, obs) in [("A", &a), ("B", &b)] {
             for (i, o) in obs.iter().enumerate() {
                 out.push(json!({"e":"req","inst":inst,"k":i + 1,"err":o.err,"d":o.d,"ns":o.ns,"intact":o.intact}).to_string());
@@ -177,8 +188,8 @@ pub fn replay(input: &str, out: &mut Vec<String>) -> (usize, usize) {
         let cfg = v["cfg"].clone();
         let cseed = v["seed"].as_u64().unwrap_or(0);
         out.push(json!({"e":"reset","comp":"chaos","cfg":cfg,"seed":cseed}).to_string());
-        let a = rt.block_on(instance(&cfg, cseed, 24, 1));
-        let b = rt.block_on(instance(&cfg, cseed, 24, 3));
+        let a = rt.block_on(instance(&cfg, cseed, 24, 1, 0));
+        let b = rt.block_on(instance(&cfg, cseed, 24, 3, 1));
         for (inst, obs) in [("A", &a), ("B", &b)] {
             for (i, o) in obs.iter().enumerate() {
                 out.push(json!({"e":"req","inst":inst,"k":i + 1,"err":o.err,"d":o.d,"ns":o.ns,"intact":o.intact}).to_string());
